@@ -30,6 +30,7 @@ RULE = (
 ASSUMPTIONS = [
     "ideal networks are the premise of the property ('if the network outputs the ideal maps for the image it is actually given'), not an approximation of a trained one",
     "keypoints in general position (fixed non-dyadic fractional parts); scene geometry scaled to the coarsest cell of the chain (resolution rule, DESIGN C02); configurations whose geometry cannot satisfy the rule are counted as skipped_infeasible, not as violations",
+    "configurations in which a resampling stage would produce a non-integer target size are the domain of known finding K4 (truncating resize, C04) and are counted as skipped_k4_domain; scenes grow by an integer factor so that eff_scale is preserved",
     "tolerance = half an output-stride cell mapped back to the original frame plus half a model-input pixel for the resampling phase the ideal network cannot see through",
     "grid values: see bounds; other values are outside the bound",
 ]
@@ -43,6 +44,21 @@ def eff_scale_of(H, W, mh, mw):
     if (H, W) == (mh, mw):
         return 1.0
     return min(mh / H, mw / W)
+
+
+def _isint(x):
+    return abs(x - round(x)) < 1e-9
+
+
+def k4_free(H, W, mh, mw, scales):
+    """True iff every resampling stage of this configuration produces an exact integer size, i.e. the configuration is
+    outside the domain of known finding K4 (truncating / rounding resize, decided under C04).  C02 is about the
+    coordinate mapping; with a truncated target size the image content itself is displaced by up to a pixel."""
+    eff = eff_scale_of(H, W, mh, mw)
+    if not (_isint(H * eff) and _isint(W * eff)):
+        return False
+    h2, w2 = (H, W) if mh is None else (mh, mw)
+    return all(_isint(h2 * s) and _isint(w2 * s) for s in scales)
 
 
 def gp(v, i):
@@ -74,6 +90,8 @@ def run_single(case, tmp):
     mh, mw = case["max_hw"]
     scale, stride = case["scale"], case["stride"]
     eff = eff_scale_of(H, W, mh, mw)
+    if not k4_free(H, W, mh, mw, [scale]):
+        return "infeasible-k4", None
     r = max(3.0, 3.0 / (scale * eff))
     if 2 * (r + 4) + 3 * r > min(H, W):
         return "infeasible", None
@@ -126,22 +144,25 @@ def run_single(case, tmp):
 
 def topdown_scene(case):
     H0, W0 = case["hw"]
-    mh, mw = case["max_hw"]
+    mh0, mw0 = case["max_hw"]
     crop, isc, csc = case["crop"], case["i_scale"], case["c_scale"]
     n_an = case["animals"]
-    # geometry in original pixels; eff depends on the final image size -> fixed point in one step (size grows only)
-    eff0 = eff_scale_of(H0, W0, mh, mw)
-    a = 0.30 * crop / (isc * eff0)  # arm length
+    eff0 = eff_scale_of(H0, W0, mh0, mw0)
+    a = 0.30 * crop / (isc * eff0)  # arm length in original pixels
     need_w = (4.4 * a) if n_an == 1 else (4.4 * a + 6.0 * a)
     need_h = (4.4 * a) if n_an == 1 else (4.4 * a + 1.5 * a)
-    k = max(1.0, need_w / W0, need_h / H0)
-    H, W = int(math.ceil(H0 * k)), int(math.ceil(W0 * k))
-    if mh is not None:
-        mh, mw = int(math.ceil(mh * k)), int(math.ceil(mw * k))
+    k0 = int(math.ceil(max(1.0, need_w / W0, need_h / H0)))
+    for k in range(k0, k0 + 4):  # integer growth keeps eff_scale; pick the first one whose resampled sizes are all integers
+        H, W = H0 * k, W0 * k
+        mh, mw = (None, None) if mh0 is None else (mh0 * k, mw0 * k)
+        if k4_free(H, W, mh, mw, [csc, isc]):
+            break
+    else:
+        return None
     eff = eff_scale_of(H, W, mh, mw)
     a = 0.30 * crop / (isc * eff)
     r = a / 3.8
-    if r * isc * eff < 2.4 or r * csc * eff < 1.2:
+    if r * isc * eff < 2.4 or r * csc * eff < 1.2 or r < 2.4:
         return None
     return H, W, mh, mw, eff, a, r
 
@@ -230,10 +251,10 @@ def run_topdown(case, tmp):
 def grid(tier):
     cases = []
     if tier == "quick":
-        hws, maxs = [(64, 96), (90, 70)], [(None, None), (128, 96)]
+        hws, maxs = [(64, 96), (60, 80)], [(None, None), (96, 160)]  # (96,160): eff_scale 1.5 resp. 1.6 + right padding
         scales, mstr, strides, refs, batches, layouts = [1.0, 0.5], [16], [2, 4], [None, "integral"], [1, 3], [0, 1]
     else:
-        hws, maxs = [(64, 64), (64, 96), (90, 70)], [(None, None), (96, 96), (128, 96), (48, 80)]
+        hws, maxs = [(64, 64), (64, 96), (60, 80)], [(None, None), (96, 96), (128, 96), (48, 80)]
         scales, mstr, strides, refs, batches, layouts = [1.0, 0.5, 0.75, 2.0], [8, 16], [1, 2, 4], [None, "integral"], [1, 3], [0, 1]
     for hw, mx, sc, ms, st, rf, b, prov, lay in itertools.product(hws, maxs, scales, mstr, strides, refs, batches, ["LabelsReader", "VideoReader"], layouts):
         cases.append({"model": "single", "hw": list(hw), "max_hw": list(mx), "scale": sc, "max_stride": ms, "stride": st, "refinement": rf, "batch": b, "provider": prov, "layout": lay})
@@ -242,10 +263,12 @@ def grid(tier):
         cs, iscs, spairs, crops, refs, batches = [1.0, 0.5], [1.0, 0.5], [(2, 2), (4, 2), (2, 4)], [32], [None, "integral"], [3]
         animals, layouts = [1, 2], [1]
     else:
-        hws, maxs = [(64, 64), (64, 96), (90, 70)], [(None, None), (96, 96), (128, 96), (96, 160), (48, 80)]
+        hws, maxs = [(64, 64), (64, 96), (60, 80)], [(None, None), (96, 96), (128, 96), (96, 160), (48, 80)]
         cs, iscs, spairs, crops, refs, batches = [1.0, 0.5], [1.0, 0.5, 0.75, 2.0], [(1, 1), (2, 2), (4, 2), (2, 4), (4, 4)], [32, 48], [None, "integral"], [1, 3]
         animals, layouts = [1, 2], [0, 1]
     for hw, mx, c, i, (cst, ist), cr, rf, b, prov, an, lay in itertools.product(hws, maxs, cs, iscs, spairs, crops, refs, batches, ["LabelsReader", "VideoReader"], animals, layouts):
+        if tier == "quick" and mx[0] is not None:
+            cr = 48  # up-scaling size matching shrinks the discs in the original frame: the larger crop keeps them renderable
         cases.append({
             "model": "topdown", "hw": list(hw), "max_hw": list(mx), "c_scale": c, "i_scale": i, "c_max_stride": 16, "i_max_stride": 16 if cr % 16 == 0 else 8,
             "c_stride": cst, "i_stride": ist, "crop": cr, "refinement": rf, "batch": b, "provider": prov, "animals": an, "layout": lay,
@@ -254,9 +277,11 @@ def grid(tier):
     if tier == "quick":
         hws, maxs, iscs, ists, crops, refs, batches, animals = [(64, 96)], [(None, None), (96, 160)], [1.0, 0.5], [2], [32], [None, "integral"], [3], [2]
     else:
-        hws, maxs = [(64, 64), (64, 96), (90, 70)], [(None, None), (96, 96), (96, 160), (48, 80)]
+        hws, maxs = [(64, 64), (64, 96), (60, 80)], [(None, None), (96, 96), (96, 160), (48, 80)]
         iscs, ists, crops, refs, batches, animals = [1.0, 0.5, 0.75, 2.0], [1, 2, 4], [32, 48], [None, "integral"], [1, 3], [1, 2]
     for hw, mx, i, ist, cr, rf, b, an in itertools.product(hws, maxs, iscs, ists, crops, refs, batches, animals):
+        if tier == "quick" and mx[0] is not None:
+            cr = 48
         cases.append({
             "model": "topdown-gt", "hw": list(hw), "max_hw": list(mx), "c_scale": 1.0, "i_scale": i, "c_max_stride": 16, "i_max_stride": 16 if cr % 16 == 0 else 8,
             "c_stride": 2, "i_stride": ist, "crop": cr, "refinement": rf, "batch": b, "provider": "LabelsReader", "animals": an, "layout": 0,
@@ -293,8 +318,8 @@ def work(part, shard):
             import traceback
 
             err, obs = f"raised {type(e).__name__}: {e} :: {traceback.format_exc()[-500:]}", None
-        if err == "infeasible":
-            part.add("skipped_infeasible")
+        if err in ("infeasible", "infeasible-k4"):
+            part.add("skipped_infeasible" if err == "infeasible" else "skipped_k4_domain")
             continue
         part.count()
         part.transition()
@@ -353,4 +378,4 @@ def replay(case):
 
     logger.remove()
     err, obs = execute(case)
-    return {"violates": bool(err) and err != "infeasible", "error": err, "obs": obs}
+    return {"violates": bool(err) and not str(err).startswith("infeasible"), "error": err, "obs": obs}
